@@ -169,6 +169,23 @@ pub fn materialise(c: &Case) -> Mat {
             reads.push((r.clone(), q.clone()));
         }
     }
+    // k = 63, two strands, --min-count >= 3 (the other half of those cases): the structured pair C^63 and (TACG)15TAC,
+    // whose 64-bit read hashes are equal (found by the C02 check, DESIGN 4 F14); S exactly min-count times, T twice
+    if k == 63 && c.rc && c.min_count >= 3 && (genome.len() + c.reads.len()) % 2 == 1 {
+        let sk: Vec<u8> = b"TACG".iter().cycle().take(63).copied().collect();
+        let tk: Vec<u8> = vec![b'C'; 63];
+        let (sk, tk) = if c.reads.len() % 4 < 2 { (sk, tk) } else { (tk, sk) };
+        let q = vec![33 + c.min_qual.clamp(30, 93); k];
+        let mc = c.min_count as usize;
+        // S min-count - 1 times, T twice, S once more: a counter shared by the two reaches the count on a T
+        let mut order: Vec<&Vec<u8>> = std::iter::repeat(&sk).take(mc - 1).collect();
+        order.push(&tk);
+        order.push(&tk);
+        order.push(&sk);
+        for r in order {
+            reads.push((r.clone(), q.clone()));
+        }
+    }
     // k <= 31 (the other half of the cases with --min-count >= 3): two unrelated k-mers whose read hashes agree in
     // 32 of their 64 bits (lower half, upper half, or the two halves folded together), found by a birthday search
     // over the program's own hash function; S exactly min-count times, T twice, in the order S T S..S T S
@@ -178,9 +195,18 @@ pub fn materialise(c: &Case) -> Mat {
             let (sk, tk, _kind) = &pairs[(genome.len() / 2 + c.reads.len()) % pairs.len()];
             let q = vec![33 + c.min_qual.clamp(30, 93); k];
             let mc = c.min_count as usize;
-            let mut order: Vec<&Vec<u8>> = vec![sk, tk];
-            order.extend(std::iter::repeat(sk).take(mc - 2));
-            order.push(tk);
+            let mut order: Vec<&Vec<u8>> = if c.reads.len() % 2 == 0 {
+                let mut o = vec![sk, tk];
+                o.extend(std::iter::repeat(sk).take(mc - 2));
+                o.push(tk);
+                o
+            } else {
+                // S min-count - 1 times, T twice, S once more
+                let mut o: Vec<&Vec<u8>> = std::iter::repeat(sk).take(mc - 1).collect();
+                o.push(tk);
+                o.push(tk);
+                o
+            };
             order.push(sk);
             for r in order {
                 reads.push((r.clone(), q.clone()));
@@ -347,6 +373,7 @@ fn judge(c: &Case, m: &Mat, observed: Result<BTreeMap<Vec<u8>, u8>, String>, ctx
     if extras > 0 { cl.push("collision_extras"); }
     if c.k >= 33 { cl.push("128bit"); }
     if c.k <= 31 && c.k >= 15 && c.min_count >= 3 && (c.genome.len() + c.reads.len()) % 2 == 1 { cl.push("planted_pair_with_half_colliding_read_hashes"); }
+    if c.k == 63 && c.rc && c.min_count >= 3 && (c.genome.len() + c.reads.len()) % 2 == 1 { cl.push("planted_pair_with_equal_read_hashes(C^63,(TACG)n)"); }
     if m.split * 2 == m.reads.len() && m.reads[..m.split] == m.reads[m.split..] { cl.push("both_files_identical(same_file_listed_twice_in_cli)"); }
     pass(near && qthr && !must.is_empty(), key_of(&(c.k, c.rc, c.min_count, c.min_qual, c.rule, &m.reads, m.split)), cl)
 }
